@@ -478,4 +478,249 @@ theorem parseUDP_spec (c : IPText) (data : Bytes) : (parseUDPHeader c data).res 
           simp [this, hl, UOut.res]
     simp [ha1, ha3, ha4, decAddr, UOut.res]
 
+/-! ### buildUDPHeader then parseUDPHeader -/
+
+theorem toNat_u8 (n : Nat) (h : n < 256) : (u8 n).toNat = n := by
+  simp [u8, UInt8.toNat_ofNat']; omega
+
+theorem be16_putBe16 (p : Nat) (hp : p < 65536) : be16 (putBe16 p) = p := by
+  have h1 : p / 256 % 256 < 256 := Nat.mod_lt _ (by decide)
+  have h2 : p % 256 < 256 := Nat.mod_lt _ (by decide)
+  simp [be16, putBe16, byteAt, toNat_u8 _ h1, toNat_u8 _ h2]
+  omega
+
+theorem putBe16_length (p : Nat) : (putBe16 p).length = 2 := rfl
+
+theorem udpFinish4 (a b c d : Byte) (addr : Bytes) (p : Nat) (payload : Bytes) (host : Text) (k : Nat)
+    (hk : 4 + addr.length + 2 = k) (hp : p < 65536) :
+    udpFinish (a :: b :: c :: d :: (addr ++ (putBe16 p ++ payload))) host k = .ok ⟨host, p, payload⟩ := by
+  subst hk
+  have e1 : 4 + addr.length + 2 - 2 = addr.length + 4 := by omega
+  have e2 : 4 + addr.length + 2 = (addr.length + 2) + 4 := by omega
+  have d2 : List.drop (addr.length + 2) (addr ++ (putBe16 p ++ payload)) = payload := by
+    rw [← List.append_assoc]
+    have : (addr ++ putBe16 p).length = addr.length + 2 := by simp [putBe16_length]
+    rw [← this, List.drop_left]
+  have t2 : List.take 2 (putBe16 p ++ payload) = putBe16 p := by
+    rw [← putBe16_length p, List.take_left]
+  simp only [udpFinish, e1, List.drop_succ_cons, List.drop_left, t2, be16_putBe16 p hp]
+  rw [show 4 + addr.length = (addr.length + 2) + 2 by omega]
+  simp only [List.drop_succ_cons, d2]
+
+theorem udpFinish5 (a b c d e : Byte) (addr : Bytes) (p : Nat) (payload : Bytes) (host : Text) (k : Nat)
+    (hk : 5 + addr.length + 2 = k) (hp : p < 65536) :
+    udpFinish (a :: b :: c :: d :: e :: (addr ++ (putBe16 p ++ payload))) host k = .ok ⟨host, p, payload⟩ := by
+  have := udpFinish4 b c d e addr p payload host (k - 1) (by omega) hp
+  simp only [udpFinish] at this ⊢
+  have e1 : k - 2 = (k - 1 - 2) + 1 := by omega
+  have e2 : k = (k - 1) + 1 := by omega
+  rw [e1, List.drop_succ_cons]
+  conv => lhs; arg 1; arg 3; rw [e2, List.drop_succ_cons]
+  exact this
+
+/-- The host text `parseUDPHeader` reports for a header built from `host`. -/
+def rebuiltHost (c : IPText) (host : Text) : Text :=
+  match c.parse host with
+  | some ip => ipString c ip
+  | none => host
+
+theorem build_parse (c : IPText) (hrt : c.RT) (host : Text) (port : Nat) (payload : Bytes)
+    (hp : port < 65536) (hh : c.parse host = none → host.length ≤ 255) :
+    parseUDPHeader c (buildUDPHeader c host port payload) = .ok ⟨rebuiltHost c host, port, payload⟩ := by
+  unfold buildUDPHeader rebuiltHost
+  cases hpar : c.parse host with
+  | none =>
+    have hl := hh hpar
+    have hmod : host.length % 256 = host.length := Nat.mod_eq_of_lt (by omega)
+    simp only [hmod, List.cons_append, List.nil_append, List.append_assoc, parseUDPHeader, byteAt,
+      List.getD_cons_zero, List.getD_cons_succ, List.length_cons, List.length_append, putBe16_length,
+      socks5.AddrDomain, socks5.AddrIPv4, socks5.AddrIPv6, toNat_u8 3 (by decide), toNat_u8 host.length (by omega),
+      show (0 : Byte).toNat = 0 from rfl, List.drop_succ_cons, List.drop_zero, List.take_left]
+    have c1 : ¬ (host.length + (2 + payload.length) + 1 + 1 + 1 + 1 + 1 < 4) := by omega
+    have c2 : ¬ (host.length + (2 + payload.length) + 1 + 1 + 1 + 1 + 1 < 5) := by omega
+    have c3 : ¬ (host.length + (2 + payload.length) + 1 + 1 + 1 + 1 + 1 < 5 + host.length + 2) := by omega
+    simp only [c1, c2, c3, if_false, ne_eq, not_true_eq_false, show ¬ (3 = 1) by decide, if_true]
+    exact udpFinish5 _ _ _ _ _ host port payload host _ rfl hp
+  | some ip =>
+    rcases hrt.shape host ip hpar with h4 | ⟨h16, _⟩
+    · simp only [h4, if_true, List.cons_append, List.nil_append, List.append_assoc, parseUDPHeader, byteAt,
+        List.getD_cons_zero, List.getD_cons_succ, List.length_cons, List.length_append, putBe16_length,
+        socks5.AddrIPv4, toNat_u8 1 (by decide), show (0 : Byte).toNat = 0 from rfl, List.drop_succ_cons,
+        List.drop_zero]
+      have c1 : ¬ (4 + (2 + payload.length) + 1 + 1 + 1 + 1 < 4) := by omega
+      have c2 : ¬ (4 + (2 + payload.length) + 1 + 1 + 1 + 1 < 10) := by omega
+      have t : List.take 4 (ip ++ (putBe16 port ++ payload)) = ip := by rw [← h4, List.take_left]
+      simp only [c1, c2, if_false, ne_eq, not_true_eq_false, if_true, t]
+      exact udpFinish4 _ _ _ _ ip port payload _ 10 (by omega) hp
+    · have h4 : ¬ ip.length = 4 := by omega
+      simp only [h4, if_false]
+      simp only [List.cons_append, List.nil_append, List.append_assoc, parseUDPHeader, byteAt,
+        List.getD_cons_zero, List.getD_cons_succ, List.length_cons, List.length_append, putBe16_length,
+        socks5.AddrIPv4, socks5.AddrDomain, socks5.AddrIPv6, toNat_u8 4 (by decide),
+        show (0 : Byte).toNat = 0 from rfl, List.drop_succ_cons, List.drop_zero, h16]
+      have c1 : ¬ (16 + (2 + payload.length) + 1 + 1 + 1 + 1 < 4) := by omega
+      have c2 : ¬ (16 + (2 + payload.length) + 1 + 1 + 1 + 1 < 22) := by omega
+      have t : List.take 16 (ip ++ (putBe16 port ++ payload)) = ip := by rw [← h16, List.take_left]
+      simp only [c1, c2, if_false, ne_eq, not_true_eq_false, if_true, t, show ¬ (4 = 1) by decide,
+        show ¬ (4 = 3) by decide]
+      exact udpFinish4 _ _ _ _ ip port payload _ 22 (by omega) hp
+
+/-! ### The reference decoders accept exactly the grammar -/
+
+theorem u8_toNat (b : Byte) : u8 b.toNat = b := by
+  apply UInt8.toNat_inj.mp
+  rw [toNat_u8 _ (UInt8.toNat_lt b)]
+
+theorem decAddr_ok (atyp : Nat) (bs : Bytes) (a : Addr) (rest : Bytes) (h : decAddr atyp bs = .ok a rest) :
+    a.WF = true ∧ bs = a.enc ++ rest ∧ atyp = a.atyp := by
+  unfold decAddr at h
+  by_cases h1 : atyp = 1
+  · simp only [h1, if_true] at h
+    by_cases hl : 4 ≤ bs.length
+    · simp only [hl, if_true, AddrRes.ok.injEq] at h
+      obtain ⟨ha, hr⟩ := h
+      subst ha hr
+      refine ⟨by simp [Addr.WF]; omega, by simp [Addr.enc], by simp [h1, Addr.atyp]⟩
+    · simp [hl] at h
+  by_cases h4 : atyp = 4
+  · simp only [h4, show ¬ (4 = 1) by decide, if_false, if_true] at h
+    by_cases hl : 16 ≤ bs.length
+    · simp only [hl, if_true, AddrRes.ok.injEq] at h
+      obtain ⟨ha, hr⟩ := h
+      subst ha hr
+      refine ⟨by simp [Addr.WF]; omega, by simp [Addr.enc], by simp [h4, Addr.atyp]⟩
+    · simp [hl] at h
+  by_cases h3 : atyp = 3
+  · simp only [h3, show ¬ (3 = 1) by decide, show ¬ (3 = 4) by decide, if_false, if_true] at h
+    match bs, h with
+    | [], h => simp at h
+    | l :: r, h =>
+      by_cases hl : l.toNat ≤ r.length
+      · simp only [hl, if_true, AddrRes.ok.injEq] at h
+        obtain ⟨ha, hr⟩ := h
+        subst ha hr
+        have hlt := UInt8.toNat_lt l
+        have hlen : (List.take l.toNat r).length = l.toNat := by simp; omega
+        refine ⟨by simp [Addr.WF]; omega, ?_, by simp [h3, Addr.atyp]⟩
+        simp [Addr.enc, hlen, u8_toNat]
+      · simp [hl] at h
+  · simp [h1, h3, h4] at h
+
+theorem decodeUDP_accept (bs : Bytes) (a : Addr) (port : Nat) (payload : Bytes)
+    (h : decodeUDP bs = .accept a port payload) :
+    a.WF = true ∧ port < 65536 ∧ ∃ r1 r2, bs = (⟨r1, r2, a, port, payload⟩ : Datagram).enc := by
+  match bs, h with
+  | r1 :: r2 :: frag :: atyp :: rest, h =>
+    simp only [decodeUDP] at h
+    by_cases hf : frag ≠ 0
+    · simp [hf] at h
+    have hf0 : frag = 0 := by simpa using hf
+    simp only [hf, if_false] at h
+    cases hd : decAddr atyp.toNat rest with
+    | bad => simp [hd] at h
+    | short => simp [hd] at h
+    | ok a' rest' =>
+      rw [hd] at h
+      match rest', h, hd with
+      | p1 :: p2 :: pl, h, hd =>
+        simp only [UVerdict.accept.injEq] at h
+        obtain ⟨ha, hp, hpl⟩ := h
+        subst ha hpl
+        obtain ⟨hwf, hbs, hat⟩ := decAddr_ok _ _ _ _ hd
+        have h1 := UInt8.toNat_lt p1
+        have h2 := UInt8.toNat_lt p2
+        refine ⟨hwf, by omega, r1, r2, ?_⟩
+        subst hp hf0
+        have e1 : (p1.toNat * 256 + p2.toNat) / 256 = p1.toNat := by omega
+        have e2 : (p1.toNat * 256 + p2.toNat) % 256 = p2.toNat := by omega
+        simp [Datagram.enc, encPort, hbs, ← hat, u8_toNat, e1, e2]
+
+/-! ### Round trip -/
+
+theorem parse_ipString (c : IPText) (hrt : c.RT) (b : Bytes)
+    (hb : b.length = 4 ∨ (b.length = 16 ∧ isV4Mapped b = false)) : c.parse (ipString c b) = some b := by
+  unfold ipString
+  rcases hb with h4 | ⟨h16, hm⟩
+  · simp [h4, hrt.parse4 b h4]
+  · have : ¬ b.length = 4 := by omega
+    simp [this, hm, hrt.parse16 b h16 hm]
+
+/-- The text of any 4- or 16-byte address is an IP literal for `ParseIP`. -/
+theorem parse_ipString_isSome (c : IPText) (hrt : c.RT) (b : Bytes) (hb : b.length = 4 ∨ b.length = 16) :
+    (c.parse (ipString c b)).isSome = true := by
+  rcases hb with h4 | h16
+  · rw [parse_ipString c hrt b (Or.inl h4)]; rfl
+  · cases hm : isV4Mapped b
+    · rw [parse_ipString c hrt b (Or.inr ⟨h16, hm⟩)]; rfl
+    · have : ¬ b.length = 4 := by omega
+      have h12 : (b.drop 12).length = 4 := by simp; omega
+      simp [ipString, this, hm, hrt.parse4 _ h12]
+
+theorem sameDest_rebuilt (c : IPText) (hrt : c.RT) (host : Text) :
+    sameDest c host (rebuiltHost c host) = true := by
+  unfold rebuiltHost sameDest
+  cases hpar : c.parse host with
+  | none => simp
+  | some ip =>
+    have := parse_ipString c hrt ip (hrt.shape host ip hpar)
+    simp [this]
+
+/-- What `parseUDPHeader` returns can be handed to `buildUDPHeader`. -/
+theorem parse_ok_wf (c : IPText) (hrt : c.RT) (data : Bytes) (d : UDest)
+    (h : parseUDPHeader c data = .ok d) :
+    d.port < 65536 ∧ (c.parse d.host = none → d.host.length ≤ 255) := by
+  have hs := parseUDP_spec c data
+  rw [h] at hs
+  simp only [UOut.res, udpExpect] at hs
+  cases hd : decodeUDP data with
+  | drop => simp [hd] at hs
+  | accept a port payload =>
+    simp only [hd, Option.some.injEq] at hs
+    obtain ⟨hwf, hport, _⟩ := decodeUDP_accept data a port payload hd
+    subst hs
+    refine ⟨hport, ?_⟩
+    intro hnone
+    cases a with
+    | ip4 b =>
+      have hb : b.length = 4 := by simpa [Addr.WF] using hwf
+      have := parse_ipString_isSome c hrt b (Or.inl hb)
+      simp [hostText] at hnone
+      simp [hnone] at this
+    | ip6 b =>
+      have hb : b.length = 16 := by simpa [Addr.WF] using hwf
+      have := parse_ipString_isSome c hrt b (Or.inr hb)
+      simp [hostText] at hnone
+      simp [hnone] at this
+    | dom b =>
+      simpa [Addr.WF, hostText] using hwf
+
+theorem udp_holds (c : IPText) (hrt : c.RT) (data : Bytes) : holdsUdp c data (udpObs c data) = true := by
+  unfold holdsUdp udpObs
+  cases h : parseUDPHeader c data with
+  | fail e =>
+    have hs := parseUDP_spec c data
+    rw [h] at hs
+    simp [← hs]
+  | ok d =>
+    have hs := parseUDP_spec c data
+    rw [h] at hs
+    obtain ⟨hp, hh⟩ := parse_ok_wf c hrt data d h
+    have hb := build_parse c hrt d.host d.port d.payload hp hh
+    have hs2 := parseUDP_spec c (buildUDPHeader c d.host d.port d.payload)
+    simp only [← hs, ← hs2, decide_true, Bool.true_and]
+    rw [hb]
+    simp [sameDest_rebuilt c hrt d.host]
+
+theorem build_holds (c : IPText) (hrt : c.RT) (host : Text) (port : Nat) (payload : Bytes) :
+    holdsBuild c host port payload (buildObs c host port payload) = true := by
+  unfold holdsBuild buildObs
+  have hs := parseUDP_spec c (buildUDPHeader c host port payload)
+  simp only [← hs, decide_true, Bool.true_and]
+  cases hwf : BuildWF host port with
+  | false => simp
+  | true =>
+    have hw : host.length ≤ 255 ∧ port < 65536 := by simpa [BuildWF] using hwf
+    rw [build_parse c hrt host port payload hw.2 (fun _ => hw.1)]
+    simp [sameDest_rebuilt c hrt host]
+
 end Tunnox.C20
